@@ -1070,6 +1070,10 @@ func (r *VersionedSignedValidatorRegistration) UnmarshalJSON(input []byte) error
 			return errors.Wrap(err, "unmarshal V1 registration")
 		}
 
+		if registration == nil {
+			return errors.New("no V1 registration")
+		}
+
 		resp.V1 = registration
 	default:
 		return errors.New("unknown version")
